@@ -102,10 +102,15 @@ def replay_aggregate(call):
     return _jobs(jobs)
 
 
-def replay(call):
+def _replay(call):
     kind = call.get('kind')
     fn = dict(reducer=replay_reducer, kernel=replay_kernel, div=replay_div, wrapper=replay_wrapper, mask=replay_mask, aggregate=replay_aggregate).get(kind)
     if fn is None:
         return dict(fails=None, detail='no native battery for %r' % kind)
     bad = fn(call)
     return dict(fails=bool(bad), detail=('; '.join(bad))[:600] if bad else 'the clause holds on the real code for the whole battery of this obligation family')
+
+
+def replay(call):
+    from rac.ded_cache import cached
+    return cached(__name__, call, lambda: _replay(call), uses=(), deps=(__file__, B.__file__))
